@@ -179,7 +179,7 @@ fn static_array_probe(n: usize) -> Option<Data<'static>> {
 /// Is this an SND operation with a page literal that Page::from_bytes refuses?
 pub fn snd_unconstructible(op: &str) -> bool {
     let p: Vec<&str> = op.splitn(3, '.').collect();
-    (p[0] == "SND" || p[0] == "SNP" || p[0] == "SNW") && guarded(|| try_pages_of_str(p[2]).is_none()).unwrap_or(true)
+    (p[0] == "SND" || p[0] == "SNP" || p[0] == "SNW" || p[0] == "SNL") && guarded(|| try_pages_of_str(p[2]).is_none()).unwrap_or(true)
 }
 
 thread_local! {
@@ -240,6 +240,28 @@ pub fn run_cop_on(sign: &Sign, op: &str) -> Option<Result<String, SignError>> {
                     let _look = b.borrow();
                 }
             });
+            guarded(|| sign.send_pages(it).map(|s| format!(".{}", str_style(s))))
+        }
+        "SNL" => {
+            // the caller's iterator gives a size_hint that is of no use (size_hint is advisory: far too large for lists of
+            // even length, zero for lists of odd length) and yields the pages all the same
+            #[derive(Clone)]
+            struct Hinted<I> {
+                inner: I,
+                hint: usize,
+            }
+            impl<I: Iterator> Iterator for Hinted<I> {
+                type Item = I::Item;
+                fn next(&mut self) -> Option<Self::Item> {
+                    self.inner.next()
+                }
+                fn size_hint(&self) -> (usize, Option<usize>) {
+                    (self.hint, Some(self.hint))
+                }
+            }
+            let pages = pages_of_str(p[2]);
+            let hint = if pages.len() % 2 == 0 { pages.len() + 70000 } else { 0 };
+            let it = Hinted { inner: pages.iter(), hint };
             guarded(|| sign.send_pages(it).map(|s| format!(".{}", str_style(s))))
         }
         "SNW" => {
